@@ -128,3 +128,4 @@ META["C18"] = dict(
         "and exclude datagrams whose IP / node id was on the permit list or from whose source a response was expected (the weakest reading of the statement). Ban expiry (unban_nodes_check) "
         "belongs to the handler, not to the filter: 'banned for at least the configured duration' is judged on the recorded expiry instant.")
 HOOK_COMMITS.append("69be644")
+HOOK_COMMITS.append("655814b")
